@@ -57,7 +57,7 @@ def run(ctx):
         for i, c in enumerate(cfgs):
             w = os.path.join(ctx.tmp, f"w_{kind}_{i}")
             os.makedirs(w, exist_ok=True)
-            evs, info = saem.run_config(kind, c, seed=ctx.seed + i, workdir=w, n_ind=8)
+            evs, info = saem.run_config(kind, c, seed=ctx.seed + i, workdir=w, n_ind=8, reuse_algo=(i % 4 == 0))
             events += evs
             if info.get("vars"):
                 vars_, params = info["vars"], info["params_names"]
